@@ -373,6 +373,25 @@ func hostile(id string, e *enc, r *vlib.Rand) {
 	if len(muts) == 0 {
 		return
 	}
+	// the culprit of a death of THIS process (not expected) is found through the journal
+	c.Journal(id, d.Name+":fatal@worker-process")
+	var panicked, returned, done int64
+	const chunk = 24
+	for lo := 0; lo < len(muts); lo += chunk {
+		hi := lo + chunk
+		if hi > len(muts) {
+			hi = len(muts)
+		}
+		hostileChunk(id, e, d, muts[lo:hi], &panicked, &returned, &done)
+	}
+	c.Count("corruptions", done)
+	c.Count("corr_panicked", panicked)
+	c.Count("corr_returned", returned)
+	c.DistinctEnum(done)
+	c.Eval(done)
+}
+
+func hostileChunk(id string, e *enc, d *decoder, muts []mutant, pPanicked, pReturned, pDone *int64) {
 	var reqs []req
 	var idx []int
 	for i, m := range muts {
@@ -391,14 +410,15 @@ func hostile(id string, e *enc, r *vlib.Rand) {
 		reqs = append(reqs, req{e.Dec, m.b})
 		idx = append(idx, i)
 	}
-	// the culprit of a death of THIS process (not expected) is found through the journal
-	c.Journal(id, d.Name+":fatal@worker-process")
+	if len(reqs) == 0 {
+		return
+	}
 	results, err := runBatch(&srv, c.Out, reqs)
 	if err != nil {
 		c.Inconclusive(id, "decode server could not be started: "+err.Error())
 		return
 	}
-	var panicked, returned int64
+	*pDone += int64(len(results))
 	for j, rs := range results {
 		m := muts[idx[j]]
 		c.SetAdd("corruption_pairs", d.Name+"|"+m.where)
@@ -428,9 +448,9 @@ func hostile(id string, e *enc, r *vlib.Rand) {
 			continue
 		}
 		if rs.m.Panicked {
-			panicked++
+			*pPanicked++
 		} else {
-			returned++
+			*pReturned++
 		}
 		bound := uint64(allocSlope*len(m.b) + allocConst)
 		c.Max("max_alloc_bytes_one_decode", int64(rs.m.Alloc))
@@ -448,12 +468,6 @@ func hostile(id string, e *enc, r *vlib.Rand) {
 			fail(d.Name+":nonterminating@"+m.where, fmt.Sprintf("decoding a %d-byte input with a hostile %s (%s) consumed %v of CPU", len(m.b), m.where, m.what, rs.m.CPU), detail(nil))
 		}
 	}
-	n := int64(len(results))
-	c.Count("corruptions", n)
-	c.Count("corr_panicked", panicked)
-	c.Count("corr_returned", returned)
-	c.DistinctEnum(n)
-	c.Eval(n)
 }
 
 // ---- corpus admission ---------------------------------------------------------------------
